@@ -16,7 +16,7 @@ structure St where
   bc : Bcast := {}
   th : List TS := []
   cx : List Nat := []      -- calls whose context has been cancelled
-deriving DecidableEq, Repr
+deriving DecidableEq, Repr, Hashable
 
 /-- the decision taken in the first and in every re-check critical section of `Lock`
 (rwmutex.go:37-52 and 92-107); `first` distinguishes the writer's `writeWaiting++` (first section,
@@ -127,7 +127,7 @@ def model : OLTS St Ev Obs where
   init := {}
   step := step
   obs := Ev.obs
-  cands := fun s => internalCands s.th.length
+  cands := fun s => internalCands s.th
   evsOf := fun _ o => [o.ev]
 
 end UtilModel.CSync.RW
